@@ -239,7 +239,7 @@ fn case_json(size: usize, start_gen: u8, hist: &[Op]) -> J {
 }
 
 pub fn run(run: &Run, sizes: &[usize]) -> (u64, u64) {
-    let depth = if run.quick() { 4 } else { 6 };
+    let depth = if run.quick() { 5 } else { 6 };
     let mut classes = std::collections::HashMap::new();
     for s in sizes {
         match classes_for(*s) {
